@@ -94,6 +94,35 @@ def run_angle(sx, axis, half, axis_scale=1):
     return "angle"
 
 
+def run_angle_on_operation(sx, axis, half, face, slot):
+    """the same sector-angle arc, declared on an edge of an operation's face (the closing edge 3 -> 0 included) and taken from
+    the assembled mesh: it is the arc from the face's point `slot` to its next point"""
+    n, C, theta, theta_val, P, r2 = _setup(sx, axis, half)
+    p1, p2 = P(0), P(2)
+    w = n * 3 + (p2 - p1) * 0 + sx.vec(0.3, -0.2, 0.1)
+    quad = [None] * 4
+    quad[slot], quad[(slot + 1) % 4] = p1, p2
+    quad[(slot + 2) % 4], quad[(slot + 3) % 4] = p2 + w, p1 + w
+    lift = n * 2 + sx.vec(0.1, 0.2, -0.1)
+    other = [q + lift * (1 if face == "bottom" else -1) for q in quad]
+    edges = [None] * 4
+    edges[slot] = cb.Angle(theta, n)
+    this, that = cb.Face(quad, edges), cb.Face(other)
+    loft = cb.Loft(this, that) if face == "bottom" else cb.Loft(that, this)
+    mesh = cb.Mesh()
+    mesh.add(loft)
+    mesh.assemble()
+    sx.reach("angle")
+    arcs = [e for e in mesh.edge_list.edges if e.kind == "angle"]
+    sx.prove(len(arcs) == 1, f"Angle on {face} face edge {slot}: one arc edge in the assembled mesh", "C08:angle:on-operation:count",
+             info={"edges": [e.kind for e in mesh.edge_list.edges]})
+    if len(arcs) == 1:
+        sx.prove_vec_close(arcs[0].third_point.position, P(1), f"Angle on {face} face edge {slot} ({half} deg): the arc taken "
+                           "from the mesh is the declared sector (third point half-way, on the declared side)", tol=1e-8,
+                           key=f"C08:angle:on-operation:{face}{slot}")
+    return "angle"
+
+
 def run_origin(sx, axis, half):
     n, C, theta, theta_val, P, r2 = _setup(sx, axis, half)
     p1, p2 = P(0), P(2)
@@ -178,6 +207,10 @@ def jobs(tier, seed):
                     continue
                 js.append({"name": f"arc3|axis={axis}|{half}|{where}", "fn": "run_arc3",
                            "params": {"axis": axis, "half": half, "where": where}})
+    for face, slot in (("bottom", 3), ("top", 3), ("top", 1), ("bottom", 0)):
+        for half in ("74", "-74") if tier == "quick" else ("74", "-74", "135", "254"):
+            js.append({"name": f"angle|on operation|{face} edge {slot}|{half}", "fn": "run_angle_on_operation",
+                       "params": {"axis": "122", "half": half, "face": face, "slot": slot}})
     js.append({"name": "angle|axis=122 non-unit x2|106", "fn": "run_angle", "params": {"axis": "122", "half": "106", "axis_scale": 6}})
     for kind in ("spline", "polyline"):
         for n in (2, 3):
